@@ -6,6 +6,8 @@ import (
 	"os"
 	"runtime"
 	"sort"
+	"strconv"
+	"strings"
 	"sync"
 	"sync/atomic"
 	"testing"
@@ -95,7 +97,13 @@ type xrun struct {
 	freeSlowDelete bool
 }
 
-func xKeyName(i int) string { return string(rune('a' + i)) }
+// xKeyName: key 0 is the zero value of the key type (the empty string), the others are single letters.
+func xKeyName(i int) string {
+	if i == 0 {
+		return ""
+	}
+	return string(rune('a' + i - 1))
+}
 
 func (x *xrun) setViol(sig, format string, a ...any) {
 	if x.viol == nil {
@@ -284,23 +292,16 @@ type lruState string // encoded "k:v,k:v" - comparable
 
 func decodeState(s lruState) []kv {
 	var out []kv
-	var k string
-	var v int
-	rest := string(s)
-	for rest != "" {
-		n, _ := fmt.Sscanf(rest, "%1s:%d", &k, &v)
-		if n != 2 {
+	if s == "" {
+		return nil
+	}
+	for _, part := range strings.Split(string(s), ",") {
+		i := strings.LastIndexByte(part, ':')
+		if i < 0 {
 			break
 		}
-		out = append(out, kv{k, v})
-		i := 0
-		for i < len(rest) && rest[i] != ',' {
-			i++
-		}
-		if i < len(rest) {
-			i++
-		}
-		rest = rest[i:]
+		v, _ := strconv.Atoi(part[i+1:])
+		out = append(out, kv{part[:i], v}) // the key may be the empty string
 	}
 	return out
 }
